@@ -10,6 +10,7 @@ import (
 	"encoding/hex"
 	"fmt"
 	"math/big"
+	"strings"
 
 	"github.com/bnb-chain/tss-lib/v2/crypto/ckd"
 	ecdsakeygen "github.com/bnb-chain/tss-lib/v2/ecdsa/keygen"
@@ -227,8 +228,79 @@ func genC18(r *vc.Run) {
 			}
 		}
 	}
-	// 3. derive-then-sign sequences on the vendored key
+	// 3. sessions on ONE parsed key object: derivations and serialisations interleaved; every step must give what the
+	// same call gives on freshly parsed objects (the values are immutable in the model: no call may disturb another)
+	c18Sessions(r)
+	// 4. derive-then-sign sequences on the vendored key
 	hdSign(r, g)
+}
+
+// c18Sessions: a parsed extended key and the children derived from it share byte slices with the decoded string;
+// a history of Derive / String calls on the shared objects is compared step by step with the same calls made on
+// fresh objects (parse the string again, derive along the recorded path), and each observed value goes to the model.
+func c18Sessions(r *vc.Run) {
+	type obj struct {
+		k    *ckd.ExtendedKey
+		path []uint32 // from the root string
+	}
+	fresh := func(root string, path []uint32) *ckd.ExtendedKey {
+		k, err := ckd.NewExtendedKeyFromString(root, tss.S256())
+		if err != nil {
+			return nil
+		}
+		for _, i := range path {
+			_, c, err := ckd.DeriveChildKey(i, k, tss.S256())
+			if err != nil {
+				return nil
+			}
+			k = c
+		}
+		return k
+	}
+	roots := []string{bip32Vectors[0][0], bip32Vectors[3][0], bip32Vectors[5][0]}
+	for si := 0; si < r.Pick(6, 40); si++ {
+		root := roots[si%len(roots)]
+		p0, err := ckd.NewExtendedKeyFromString(root, tss.S256())
+		if err != nil {
+			continue
+		}
+		objs := []obj{{p0, nil}}
+		var trace []string
+		for step := 0; step < 4+r.Rng.Intn(6); step++ {
+			o := objs[r.Rng.Intn(len(objs))]
+			if step == 0 || (step > 1 && r.Rng.Intn(2) == 0 && int(o.k.Depth) < 250) {
+				idx := uint32([]int{0, 1, 2, 2147483647, r.Rng.Intn(1 << 20)}[r.Rng.Intn(5)])
+				f := fresh(root, o.path)
+				args := []val.V{xkeyV(f), val.I64(int64(idx))}
+				il, c, err := ckd.DeriveChildKey(idx, o.k, tss.S256())
+				trace = append(trace, fmt.Sprintf("derive %v/%d", o.path, idx))
+				var obs val.V = val.Err
+				if err == nil {
+					obs = val.Ok(val.L(val.I(il), xkeyV(c)))
+					objs = append(objs, obj{c, append(append([]uint32{}, o.path...), idx)})
+				}
+				r.Record("ckd_session/derive", true, "ckd_derive", args, obs)
+				want, _ := vc.Exec("ckd_derive", args)
+				if want.String() != obs.String() {
+					r.Violate("ckd-session-disturbed|derive", "a derivation on a key object that was used before differs from the same derivation on a freshly parsed key", root+" "+strings.Join(trace, "; "))
+					break
+				}
+			} else {
+				f := fresh(root, o.path)
+				got := o.k.String()
+				trace = append(trace, fmt.Sprintf("string %v", o.path))
+				r.Record("ckd_session/string", true, "ckd_string", []val.V{xkeyV(f)}, val.B([]byte(got)))
+				if got != f.String() {
+					r.Violate("ckd-session-disturbed|string", "serialising a key object that was used before differs from serialising a freshly derived one", root+" "+strings.Join(trace, "; "))
+					break
+				}
+			}
+		}
+		// at the end the root object still serialises to the string it was parsed from
+		if p0.String() != root {
+			r.Violate("ckd-session-disturbed|root", "after a history of derivations and serialisations the parsed key no longer serialises to its own string", root+" "+strings.Join(trace, "; "))
+		}
+	}
 }
 
 // hdSign: derive a child key of the group key, sign with the offset, verify under child and not under parent, shares unchanged; twice on the same loaded key.
